@@ -4,7 +4,7 @@
 //
 //   -DH_HEADER='<ffsm2/machine.hpp>' | '<ffsm2/machine_dev.hpp>'
 //   -DH_N=<states> -DH_HEAD=0|1 -DH_MANUAL=0|1 -DH_LIMIT=<n> -DH_CAP=<n>
-//   -DH_PAYLOAD=0 (none) |1 (uint8_t) |2 (int) |3 (double) |4 (3-byte struct) |5 (alignas(16) 24-byte struct)
+//   -DH_PAYLOAD=0 (none) |1 (1-byte struct) |2 (int) |3 (double) |4 (3-byte struct) |5 (alignas(16) 24-byte struct)
 //   -DH_CTX=0 (value) |1 (reference) |2 (pointer)
 //   -DH_INJ_ROOT=<k> -DH_INJ_STATE=<k> -DH_DEFROOT=<mask> -DH_DEFSTATE=<mask>
 //   plus the library's own FFSM2_ENABLE_* switches.
@@ -95,10 +95,11 @@ static const char* const METH[] = {"entryGuard","enter","reenter","preUpdate","u
 static int methIndex(const std::string& s) { for (int i = 0; i < M_COUNT; ++i) if (s == METH[i]) return i; return -1; }
 
 // ---- payloads: the script names a payload by one byte p; byte i of the object is (p + 37 i) & 0xff ----
+struct B1 { unsigned char b; };     // (PayloadT<uint8_t> itself does not compile: Transition{origin, destination} is ambiguous with {destination, payload})
 struct B3 { unsigned char b[3]; };
 struct alignas(16) A16 { unsigned char b[24]; };
 #if H_PAYLOAD == 1
-using Payload = uint8_t;
+using Payload = B1;
 #elif H_PAYLOAD == 2
 using Payload = int;
 #elif H_PAYLOAD == 3
